@@ -110,9 +110,19 @@ REVIEW = {
 }
 
 
+REVIEW2 = {
+ "H7_guarded_cancel_in_shutdown": [("ipv8/requestcache.py", "                # Cancel all managed futures, and suppress the CancelledErrors\n                for future, _ in cache.managed_futures:\n                    future.cancel()\n", "                # Cancel all managed futures, and suppress the CancelledErrors\n                for future, _ in cache.managed_futures:\n                    if not future.done():\n                        future.cancel()\n")],
+ "H8_clear_returns_call": [("ipv8/requestcache.py", "        tasks = self.cancel_all_pending_tasks()\n        self._identifiers.clear()\n        return tasks", "        self._identifiers.clear()\n        return self.cancel_all_pending_tasks()")],
+ "H9_done_cb_del": [("ipv8/taskmanager.py", "                if self._pending_tasks.get(name, None) is future:\n                    self._pending_tasks.pop(name, None)", "                if self._pending_tasks.get(name, None) is future:\n                    del self._pending_tasks[name]")],
+ "H10_remove_ident_if_is_cache": [("ipv8/requestcache.py", "        if identifier in self._identifiers:\n            self._identifiers.pop(identifier)\n\n        try:", "        if self._identifiers.get(identifier) is cache:\n            self._identifiers.pop(identifier)\n\n        try:")],
+ "S_suppress_around_register_task": [("ipv8/requestcache.py", "            self.register_task(cache, self._on_timeout, cache, delay=timeout_delay)\n", "            with suppress(RuntimeError):\n                self.register_task(cache, self._on_timeout, cache, delay=timeout_delay)\n")],
+ "X2_revert_shutdown_task_manager_override": [("ipv8/requestcache.py", "            self._identifiers.clear()\n        await super().shutdown_task_manager()\n", "            pass\n        await super().shutdown_task_manager()\n")],
+}
+
 ALL = {k: [v] for k, v in MUTS_SINGLE.items() if v[1] != "RENAME"}
 ALL.update(REFACTORS)
 ALL.update(REVIEW)
+ALL.update(REVIEW2)
 
 
 def run(name):
@@ -135,7 +145,7 @@ def run(name):
         sigs = [json.load(open(v))["signature"] for v in sorted(glob.glob("replays/C10/violation_*.json"))
                 if os.path.getmtime(v) > t0]
         nf = "no-failing-input-found" in r.stdout
-        want = 0 if name.startswith("H") or "HARMLESS" in name else 1
+        want = 0 if name.startswith("H") or "HARMLESS" in name or name.startswith("F41") else 1
         print(f"{name}: exit={r.returncode} ({'as expected' if r.returncode == want else 'UNEXPECTED'})"
               f"{' no-failing-input-found' if nf else ''} signatures={sigs[:4]}")
     finally:
